@@ -233,7 +233,7 @@ pub struct RndCase {
 }
 
 fn rnd_strat() -> impl Strategy<Value = RndCase> {
-    (0u8..5, prop::sample::select(vec![1u32, 2, 3, 8, 63, 64, 65, 127, 128, 256, 258, 1024, 1536]), -5i64..1000, prop::sample::select(vec![0u64, 1, 2, 3, 7, 255, 1 << 40]), 8u16..64)
+    (0u8..5, prop::sample::select(vec![1u32, 2, 3, 8, 63, 64, 65, 127, 128, 256, 258, 1024, 1536, 2047, 2048, 2049, 2560, 3072, 3073, 4096, 4100]), -5i64..1000, prop::sample::select(vec![0u64, 1, 2, 3, 7, 255, 1 << 40]), 8u16..64)
         .prop_map(|(fun, bits, lo, span, draws)| RndCase { fun, bits, lo, span, draws })
 }
 
